@@ -1,6 +1,7 @@
 package main
 
 import (
+	"encoding/json"
 	"fmt"
 	"sort"
 	"strings"
@@ -98,6 +99,35 @@ func (e *Exec) concretizeBlobs(m map[string]string) {
 			unames = append(unames, parseSMTString(v))
 		}
 	}
+	keyLike := map[string]bool{}
+	for i, in := range blobs {
+		if strings.HasSuffix(in.Name, ".key") || strings.HasPrefix(in.Name, "in_key") {
+			keyLike[fs[i].abs] = true
+		}
+	}
+	// pass 0: document keys are only ever compared: every abstract key gets its own plain string
+	for _, f := range fs {
+		if !keyLike[f.abs] {
+			continue
+		}
+		if _, ok := assigned[f.abs]; ok {
+			continue
+		}
+		if f.isStr && f.str != "" {
+			if _, clash := used[f.str]; !clash {
+				assign(f.abs, f.str)
+				continue
+			}
+		}
+		c := fmt.Sprintf("key%d", len(assigned))
+		for k := 0; ; k++ {
+			if _, clash := used[c]; !clash {
+				break
+			}
+			c = fmt.Sprintf("key%d_%d", len(assigned), k)
+		}
+		assign(f.abs, c)
+	}
 	// pass 1: string images
 	for _, f := range fs {
 		if _, ok := assigned[f.abs]; !ok && f.isStr {
@@ -183,7 +213,7 @@ func (e *Exec) concretizeBlobs(m map[string]string) {
 		}
 		for i, in := range blobs {
 			f := fs[i]
-			if _, ok := assigned[f.abs]; ok || !f.isJObj || in.Kind == "xattrs" {
+			if _, ok := assigned[f.abs]; ok || !f.isJObj || !f.isJSON || in.Kind == "xattrs" {
 				continue
 			}
 			build(in.T, f, 1)
@@ -206,7 +236,12 @@ func (e *Exec) concretizeBlobs(m map[string]string) {
 			leaf(f)
 			continue
 		}
-		assign(f.abs, synthBlob(f.n, f.first, f.last, len(assigned), used))
+		// the model says this text is NOT valid JSON: make sure the synthesised bytes are not
+		c := synthBlob(f.n, f.first, f.last, len(assigned), used)
+		if json.Valid([]byte(c)) {
+			c = "!" + c
+		}
+		assign(f.abs, c)
 	}
 	for i, in := range blobs {
 		m[in.Name] = "s:" + assigned[fs[i].abs]
